@@ -13,10 +13,11 @@ EXTRA = [f32(9e6), f32(1e-4), f32(1e-3), f32(1.3e9), f32(4.7e-4), f32(1e-11), f3
 NMAXS = [16, 24, 30, 31, 64, 100, 127, 128, 256]
 
 
-def efcase(cid, n, nb, nmax, spacing, buckets, z, profsets, ops):
+def efcase(cid, n, nb, nmax, spacing, buckets, z, profsets, ops, box=None):
+    """box = (qmin, qmax, pmin, pmax) of the phase space, default [-6,6]^2"""
     return "ef %s %d %d %d %d\noff %s\nparts %s\nextra %s\ndata %s\nops %s\nrun\n" % (
         cid, n, nb, nmax, spacing, " ".join(f2h(float(b)) for b in buckets),
-        " ".join(f2h(x) for zz in z for x in zz), " ".join(f2h(x) for x in EXTRA),
+        " ".join(f2h(x) for zz in z for x in zz), " ".join(f2h(x) for x in list(EXTRA) + list(box or [])),
         " ".join(f2h(x) for ps in profsets for x in ps), " ".join(ops))
 
 
